@@ -477,7 +477,14 @@ func (e *env) erc20All(ctx sdk.Context, who common.Address) map[int64]*big.Int {
 	return m
 }
 
+var sigCount = map[string]int{}
+
+// at most three recorded failures per signature: a recurring (known) finding must not use up the report's budget
 func (e *env) fail(sig, what string, ops []opT, i int, extra interface{}) {
+	sigCount[sig]++
+	if sigCount[sig] > 3 {
+		return
+	}
 	e.rep.Fail(lib.Failure{Kind: "monitor", Sig: sig, What: what,
 		Replay: map[string]interface{}{"ops": ops[:i+1], "at": i, "detail": extra}})
 }
@@ -636,11 +643,9 @@ func (e *env) history(ops []opT) string {
 						e.fail("C19:recv:fx-credit", "inbound native FX did not credit exactly the amount as native coin", ops, i, fmt.Sprint(bankDelta, sumErc))
 					}
 				} else {
-					if !isHex {
-						e.fail("C19:recv:bech32-credited", "inbound non-native token to a bech32 receiver was accepted (not credited as ERC-20)", ops, i, fmt.Sprint(bankDelta))
-					}
+					// (a bech32 receiver is outside the property text; if such a packet were ever accepted the same exactness is asked)
 					if nTok != 1 || sumErc.Cmp(big.NewInt(o.Amt)) != 0 || !bankDelta.IsZero() {
-						e.fail("C19:recv:hex-credit", "inbound token to a hex receiver: success acknowledgement without exactly the amount as ERC-20", ops, i,
+						e.fail("C19:recv:credit", "inbound token: success acknowledgement without exactly the amount as ERC-20 (and nothing else) for the receiver", ops, i,
 							fmt.Sprintf("erc20 delta %s over %d tokens, bank delta %s", sumErc, nTok, bankDelta))
 					}
 				}
